@@ -40,7 +40,12 @@ IRRELEVANT_QUERY_PATTERN = r"^(?:__twitter_impression|_guc_consent_skip|guccount
 IRRELEVANT_SUBDOMAIN_PATTERN = r"(?:^|(?<=\.))(?:www\d?|mobile%s|m)\."
 
 AMP_QUERY_PATTERN = r"|amp_.+|amp"
-AMP_QUERY_COMBOS = {"outputtype": ("amp",)}
+AMP_QUERY_COMBOS = {
+    "outputtype": ("amp",),
+    "marfeeltn": ("amp",),
+    "mode": ("amp",),
+    "output": ("amp",),
+}
 AMP_SUBDOMAIN_PATTERN = r"|amp"
 AMP_SUFFIXES_RE = re.compile(r"(?:\.amp(?=\.html$)|\.amp/?$|(?<=/)amp/?$)", re.I)
 
@@ -53,9 +58,6 @@ IRRELEVANT_SUBDOMAIN_AMP_RE = re.compile(
 )
 
 IRRELEVANT_QUERY_COMBOS = {
-    "marfeeltn": ("amp",),
-    "mode": ("amp",),
-    "output": ("amp",),
     "platform": ("hootsuite",),
     "fromref": ("twitter",),
     "m": (
